@@ -32,6 +32,15 @@ SAN_CTXS = {'quick': ['avx', 'sse'], 'thorough': ['avx', 'sse', 'v128', 'v256', 
 NO_MASKOPS = {'simde512'}        # installed SIMDe lacks simde_kxor_mask*/simde_knot_mask*: hardshrink/softshrink/hardswish do not compile
 DTYPES = {'f32': (np.float32, 4), 'f64': (np.float64, 8)}
 NO_MATMUL_F64 = {'simde512'}     # simd_op_t<simde_avx512_t,double>::fmadd does not compile
+# Is the layout test of evaluator_t<matmul,simd>::operator() on the lhs effective in the tree under test?  False for the
+# unchanged tree (lhs_type is computed from a reference-to-pointer, contiguous_axis_v fails, eval_matmul runs for every
+# lhs: known finding matmul.column-major-lhs).  Set to True once fixes/C12-matmul-lhs-layout-fallback.diff is applied:
+# the harness then also builds column-major lhs x row-major rhs, the model is asked with fallback=1 and the
+# column-major-lhs cases are in-domain (simdEvalMatmul_repaired_eq_scalar).
+MATMUL_LHS_FALLBACK_REPAIRED = True     # fix commit 8eebbc3 in /repo
+import os as _os
+if _os.environ.get('C12_MATMUL_LHS_FALLBACK') in ('0', '1'):      # try-out knob: VERIF_REPO=<repaired tree> C12_MATMUL_LHS_FALLBACK=1 ./check C12
+    MATMUL_LHS_FALLBACK_REPAIRED = _os.environ['C12_MATMUL_LHS_FALLBACK'] == '1'
 
 UNARY_MODEL_OPS = ['floor', 'relu', 'ceil', 'relu6']            # exact on integer data, evaluated by the Lean model
 UNARY_NUMPY_OPS = ['sqrt', 'ceil', 'floor']                     # IEEE-exact in NumPy: bit patterns compared
@@ -42,7 +51,7 @@ RULE = ('per SIMD context (x86 SSE, x86 AVX, vector extension 128/256/512, SIMDe
         'element count 1..4*lanes+1 (1-d) plus 2-d/3-d shapes, row- and column-major; binary ops on equal shapes (every count) '
         'and on every 2-d broadcast pattern (R,C)x{(1,C),(R,1),(1,1)} both ways; outer on 1-d..3-d operand pairs; add/multiply/'
         'subtract reduce over every axis, axis=-1, axis=None, keepdims on/off, 1-d..4-d shapes; matmul (M,K)x(K,N) with column-major '
-        'rhs. Each structural case carries integer provenance data (lhs id + 1000*rhs id, shuffled distinct summands, products of '
+        'rhs, row- and column-major lhs. Each structural case carries integer provenance data (lhs id + 1000*rhs id, shuffled distinct summands, products of '
         '2s and 3s: non-zero, non-arange) and is answered three ways: SIMD evaluator (harness appends MISMATCH when it differs from '
         'the scalar evaluator in the same binary), Lean model, NumPy. Value cases use eighth-valued random data compared bitwise '
         '(element-wise) or within a re-association tolerance derived from the operand magnitudes (reductions, matmul); special '
@@ -60,9 +69,12 @@ ANCHORS = {
     'NmVerif.Simd.reductionNdReshape / reduction2dShape / reduction2d / reductionAt': 'index::reduction_nd_reshape / reduction_2d_shape / reduction_2d / reduction_2d_enumerator (index/ufunc.hpp:148-324)',
     'NmVerif.Simd.simdOuter': 'eval_outer (evaluator/ufunc.hpp:95-171)',
     'NmVerif.Simd.outerSimdShape / outerSimd / outerAt': 'index::outer_simd_shape / outer_simd / outer_simd_enumerator_t::operator[] (index/ufunc.hpp:326-499)',
-    'NmVerif.Simd.simdMatmul': 'evaluator_t<matmul view,simd_base_t<tag>>::eval_matmul (evaluator/matmul.hpp:23-121)',
+    'NmVerif.Simd.simdMatmul / matmulCellLoop / matmulStep': 'evaluator_t<matmul view,simd_base_t<tag>>::eval_matmul (evaluator/matmul.hpp:23-121)',
+    'NmVerif.Simd.simdEvalMatmul / simdEvalMatmulWith / matmulLhsFallbackEffective': 'evaluator_t<matmul view,simd_base_t<tag>>::operator()(output_t&) (evaluator/matmul.hpp:125-142)',
+    'NmVerif.Simd.simdReduceAxisK / reduceOutShape / normOutShape': 'eval_reduction: out_shape_ = keepdims ? out_shape : insert_index(out_shape,1,axis) (evaluator/ufunc.hpp:262-282)',
+    'NmVerif.Simd.outerStep': 'eval_outer, body of the loop over outer_simd_enumerator (evaluator/ufunc.hpp:131-168)',
     'NmVerif.Simd.matmulInnerSize / matmulInner': 'index::matmul_simd_inner_size / matmul_simd_inner (index/matmul.hpp:39-105)',
-    'NmVerif.Simd.scalarUnary / scalarBinary2d / scalarReduceAxis / scalarOuter': 'array::evaluator_t<view,none_t> (array/eval.hpp) on ufunc / broadcast / reduce / outer views = NumPy',
+    'NmVerif.Simd.scalarUnary / scalarBinary2d / scalarReduceAxis / scalarReduceAxisK / scalarOuter / scalarMatmul / scalarMatmulNDA': 'array::evaluator_t<view,none_t> (array/eval.hpp) on ufunc / broadcast / reduce / outer / matmul views = NumPy',
 }
 ASSUMPTIONS = [
     'intrinsic wrappers are lane-wise (Props.C12.LaneWise1/LaneWise2): op.eval on a register = the scalar functor on each lane; '
@@ -72,40 +84,43 @@ ASSUMPTIONS = [
     'SIMDe AVX-512: hardshrink/softshrink/hardswish and double matmul do not compile against the installed SIMDe (missing '
     'simde_kxor_mask*, simd_op_t<simde_avx512_t,double>::fmadd uses the float intrinsic): not provided, not run',
     'model and theorems follow the tree repaired by fixes/C12-*.diff (identity in the one-element reduction, negative axis '
-    'normalised, (1,1) broadcast operand read at 0, scalar-evaluator fallback for column-major operands and identity-less ops)',
+    'normalised, (1,1) broadcast operand read at 0, scalar-evaluator fallback for column-major operands and identity-less ops); '
+    'the matmul part of the column-major fallback is ineffective in the tree (model mirrors that: matmulLhsFallbackEffective = false)',
+    'matmul: exact arithmetic (fma x y z = x*y + z over a commutative monoid) is a hypothesis of simdMatmul_eq_scalar; integer-valued '
+    'data makes it true in the structural cases, value cases are compared within a tolerance',
 ]
 PARTIAL = [
-    'reductions over an axis other than the last: simdReduceAxis_nonLastAxis_eq_fold proves, for every n-d shape pre++[A]++post, that '
-    'eval_reduction leaves no buffer and that row rho of its result is the column-wise left fold (from the identity row) of buffer rows '
-    'rho*A .. rho*A+A-1 (via simdReduceVertical_eq_loop/_eq_fold on the 2-d forms of reduction_nd_reshape). Not proved: that this '
-    'row-wise fold is the cell-wise reference scalarReduceAxis on the n-d NDA (mixed-radix decomposition of ndindex; full statement '
-    'kept as a comment in Props/C12.lean); proved in full for the last axis (simdReduceAxis_lastAxis_eq_scalar); the non-last-axis '
-    'identification is checked by the NumPy oracle on every run',
-    'outer: outer_covers_once (every output cell written exactly once, any operand rank) is proved; that the lhs/rhs offsets of each step '
-    'are the outer-product operands, and the evaluator-level simdOuter = scalarOuter, are not (correspondence + NumPy only)',
-    'matmul: matmul_inner_covers_once (the inner steps of every output element read its lhs row / rhs column exactly once, any K) is '
-    'proved; the evaluator-level simdMatmul = sum of products is not (fmadd rounding is outside the model anyway; correspondence + NumPy); '
-    'the column-major-lhs fallback of eval_matmul is not modelled (the harness only builds the accepted row-major lhs / column-major rhs)',
+    'matmul: simdMatmul_eq_laneSums states the exact order/association of eval_matmul (N lane-strided fma chains over the zero-padded '
+    'row/column, then a left-to-right horizontal sum) with no algebraic law; simdMatmul_eq_scalar identifies it with the sum of the K '
+    'products only in exact arithmetic (commutative monoid, fma x y z = x*y + z): the single rounding of a hardware fmadd and the '
+    're-association in floating point are outside the model (checked within a tolerance by the differential run)',
+    'matmul with a column-major lhs: the layout test of operator() is dead code in the unchanged tree (open known finding '
+    'matmul.column-major-lhs, simdEvalMatmul_colMajorLhs_counterexample, fixes/C12-matmul-lhs-layout-fallback.diff); the statement for the '
+    'repaired operator() is simdEvalMatmul_repaired_eq_scalar; set MATMUL_LHS_FALLBACK_REPAIRED once the fix is applied',
     'NaN / -0.0 through the min/max-built activations relu6, hardtanh, softshrink are outside the lane-wise hypothesis: open known finding '
     'elementwise.special-values',
 ]
 MANIFEST = dict(
-    text='Proof: 27 Lean theorems over all element counts / row lengths and all lane counts > 0: closed form of the packed loop, every '
+    text='Proof: 40 Lean theorems over all element counts / row lengths / ranks and all lane counts > 0: closed form of the packed loop, every '
          'packed access inside its buffer, packed chunks + tail partition [0,n); SIMD unary / same-shape binary = scalar evaluator for '
          'operands of either layout (column-major operands take the scalar path); 2-d broadcasting binary: every output cell written '
          'exactly once, operand offsets = NumPy broadcasting (incl. (1,1) operands), offsets in bounds, evaluator = NumPy broadcasting; '
-         'full reduction = left fold over a commutative monoid from the identity of the op; identity-less ops, column-major operands and '
-         'negative axes reduce to the scalar evaluator / the normalised axis; horizontal reduction with identity padding = monoid sum of '
-         'every row = the n-d scalar reference over the last axis; vertical reduction = scalar row accumulation loop = column-wise left '
-         'fold; outer enumerator covers every output cell once (any rank); matmul inner steps read each lhs row / rhs column once. '
+         'full reduction = left fold over a commutative monoid from the identity of the op; reduction over ANY axis of an n-d operand '
+         '(either layout, op with or without identity, axis written k or k-dim, keepdims on or off) = the cell-wise scalar reference '
+         '(simdReduceAxis_eq_scalar / simdReduceAxisK_eq_scalar): horizontal with identity padding for the last axis, vertical = row '
+         'accumulation = column fold identified with the n-d reference through the mixed-radix decomposition of ndindex for the others; '
+         'outer: every output cell written once, lhs/rhs offsets of every lane = outer-product operands (all three rank branches), '
+         'evaluator = scalar outer product for operands of any rank and either layout; matmul: inner steps read each lhs row / rhs column '
+         'once, evaluator = explicit lane-strided fma association (no law) = sum of the K products in exact arithmetic, operator() with an '
+         'effective lhs-layout test = n-d reference, counterexample for the dead test of the unchanged tree. '
          'Intrinsic wrappers are an explicit lane-wise hypothesis. Tied to the C++ by a differential run of array::fn(args, ctx) for six '
          'SIMD contexts x float/double against array::fn(args) in the same binary, the Lean model and NumPy, plus the pure enumerators '
          'tuple by tuple and an ASan run.',
     note='Lean kernel + propext/Classical.choice/Quot.sound; model hand-written, fidelity rests on the correspondence run; lane-wise '
-         'behaviour of the intrinsics is a hypothesis measured bitwise on this CPU only; non-last-axis reductions are proved on the 2-d '
-         'form the evaluator reshapes to (n-d identification by oracle); matmul and outer operand offsets by correspondence only; five '
-         'defects found by this check were repaired in the source (fixes/C12-*.diff); one known finding stays open (NaN/-0.0 in '
-         'min/max-built activations).',
+         'behaviour of the intrinsics is a hypothesis measured bitwise on this CPU only; matmul = sum of products holds in exact '
+         'arithmetic only (fmadd rounding outside the model); five defects found by this check were repaired in the source '
+         '(fixes/C12-*.diff); two known findings stay open (NaN/-0.0 in min/max-built activations; SIMD matmul ignores a column-major '
+         'lhs, repair in fixes/C12-matmul-lhs-layout-fallback.diff).',
     technique='Lean 4 induction proofs over element counts / lane counts + hardware differential (SIMD vs scalar evaluator, ASan)')
 
 
@@ -119,10 +134,11 @@ def hname(ctx, san=False):
 
 def harness_specs(tier):
     specs = []
+    fb = ['-DC12_MATMUL_LHS_FALLBACK'] if MATMUL_LHS_FALLBACK_REPAIRED else []
     for c, d in CTXS.items():
-        specs.append(dict(name=hname(c), src=d['src'], flavour='fast', extra=d['extra']))
+        specs.append(dict(name=hname(c), src=d['src'], flavour='fast', extra=d['extra'] + fb))
     for c in SAN_CTXS[tier]:
-        specs.append(dict(name=hname(c, True), src=CTXS[c]['src'], flavour='san', extra=CTXS[c]['extra']))
+        specs.append(dict(name=hname(c, True), src=CTXS[c]['src'], flavour='san', extra=CTXS[c]['extra'] + fb))
     specs.append(dict(name='h_c12_enum', src='h_c12_enum.cpp', flavour='fast'))
     return specs
 
@@ -422,6 +438,12 @@ def gen_reduce(ctx, tier, rng):
         L = lanes_of(ctx, dt)
         eps = 2.0 ** -23 if dt == 'f32' else 2.0 ** -52
         one, two, nd = reduce_shapes(L, tier)
+        # random n-d shapes (rank 3..5, any axis): the any-axis identification simdReduceAxis_eq_scalar
+        for _ in range(2 if tier == 'quick' else 12):
+            r = rng.randint(3, 5)
+            sh = [rng.randint(1, 3) for _ in range(r)]
+            sh[rng.randrange(r)] = rng.choice([L - 1, L, L + 1, 2 * L + 1])
+            nd.append(sh)
         k = 0
         for shape in one + two + nd:
             dim = len(shape)
@@ -469,6 +491,23 @@ def gen_matmul(ctx, tier, rng):
                     exp = 'ok shape=%s val=%s' % (fmt([M, Nn]), ints_str(x @ y))
                     req = 'matmul dtype=%s op=matmul lanes=%d lshape=%s rshape=%s fmt=int show=1 tolabs=0 ldata=%s rdata=%s' % (dt, L, fmt([M, K]), fmt([K, Nn]), fdata(ld), fdata(rd))
                     yield Case(req, hname(ctx), dom=True, oracle=exp, nontrivial=(K >= L), tags=['matmul', 'ctx=' + ctx, dt, 'model'])
+                    # column-major lhs: operator() is meant to hand the view to the scalar evaluator (either rhs layout;
+                    # a row-major rhs only compiles in the repaired tree)
+                    ll = 'col'
+                    rl = 'row' if (MATMUL_LHS_FALLBACK_REPAIRED and (M + Nn + K) % 2 == 1) else 'col'
+                    # non-zero entries: the scalar evaluator folds from the first product, so 0 * (-5) would surface as -0.0
+                    ld = [rng.randint(1, 9) * rng.choice([-1, 1]) for _ in range(M * K)]
+                    rd = [rng.randint(1, 9) * rng.choice([-1, 1]) for _ in range(K * Nn)]
+                    x = logical(ld, [M, K], ll, 'f64')
+                    y = logical(rd, [K, Nn], rl, 'f64')
+                    exp = 'ok shape=%s val=%s' % (fmt([M, Nn]), ints_str(x @ y))
+                    req = 'matmul dtype=%s op=matmul lanes=%d lshape=%s rshape=%s llayout=%s rlayout=%s fmt=int show=1 tolabs=0 ldata=%s rdata=%s' % (
+                        dt, L, fmt([M, K]), fmt([K, Nn]), ll, rl, fdata(ld), fdata(rd))
+                    # in the unchanged tree the model mirrors the defect (eval_matmul reads the lhs buffer as row-major):
+                    # off-domain there unless the layout of the lhs does not matter
+                    yield Case(req, hname(ctx), dom=(MATMUL_LHS_FALLBACK_REPAIRED or not layout_matters([M, K])), oracle=exp,
+                               mreq='c12.%s fallback=%d' % (req, 1 if MATMUL_LHS_FALLBACK_REPAIRED else 0), nontrivial=(K >= L),
+                               tags=['matmul', 'ctx=' + ctx, dt, 'model', 'layout=%s/%s' % (ll, rl)])
                     if (M + Nn + K) % 3 == 0:
                         ld = [rng.randint(-64, 64) / 8.0 for _ in range(M * K)]
                         rd = [rng.randint(-64, 64) / 8.0 for _ in range(K * Nn)]
@@ -597,6 +636,12 @@ def pred_reduce_negaxis(case):
     return kind == 'reduce' and a['axis'] != 'None' and int(a['axis']) < -1
 
 
+def pred_matmul_col_lhs(case):
+    """SIMD matmul whose lhs is column-major with a layout that matters (more than one row and more than one column)"""
+    kind, a = _args(case)
+    return kind == 'matmul' and a.get('llayout') == 'col' and layout_matters(_shape(a['lshape']))
+
+
 def pred_special_minmax(case):
     """min/max/compare-built activations (relu6, hardtanh, softshrink) on NaN or -0.0 input"""
     kind, a = _args(case)
@@ -614,4 +659,5 @@ REPAIRED_CLASSES = [('layout.column-major', pred_colmajor), ('binary.bcast-1x1',
 # non-add op, subtract.reduce, negative axis) stay as tag helpers above; only the open finding is a known predicate
 KNOWN_PREDICATES = {
     'special_values_minmax': pred_special_minmax,
+    'matmul_col_lhs': pred_matmul_col_lhs,
 }
